@@ -63,7 +63,7 @@ SvAcc == {"POOR", "RICH", "RICH4", "AFT1", "AFT2", "END"}
 GoTs  == {"20200101000000", "20200102000000", "20191231235959"}
 GoRev == {"abcdef012345", "0123456789ab"}
 GolangG ==
-  [ S    |-> T({"v", ""}, "MAJ") \cup T({"v"}, "PMAJ"),
+  [ S    |-> T({"v", ""}, "MAJ") \cup T({"v", ""}, "PMAJ"),
     MAJ  |-> T({"0", "1", "10"}, "d1") \cup T({"1.0.0", "1.2.3"}, "RICH"),
     d1   |-> T({"."}, "MIN"),
     MIN  |-> T({"0", "1", "9", "10"}, "d2"),
